@@ -11,6 +11,10 @@
 #include <opm/material/fluidmatrixinteractions/MaterialTraits.hpp>
 #include <opm/material/fluidmatrixinteractions/PiecewiseLinearTwoPhaseMaterial.hpp>
 
+#include <opm/input/eclipse/Deck/Deck.hpp>
+#include <opm/input/eclipse/EclipseState/Runspec.hpp>
+#include <opm/input/eclipse/Parser/Parser.hpp>
+
 #include "common/vh.hpp"
 
 #include <algorithm>
@@ -311,6 +315,58 @@ static void corrHyst(vh::Rng& r, vh::Sink& sink, int cases)
     }
 }
 
+
+// Killough's model for the non-wetting phase (krHysteresisModel 2 / 3).  The hysteresis configuration has no
+// setter for the trapping regularisation parameter: it is read from a RUNSPEC/EHYSTR pair as the deck level does.
+static std::shared_ptr<Opm::EclHysteresisConfig> killoughCfg(int model, double modParam)
+{
+    const std::string txt = "RUNSPEC\nOIL\nWATER\nSATOPTS\n HYSTER /\nPROPS\nEHYSTR\n 0.1 " + std::to_string(model) + " 1.0 " + num(modParam) + " KR /\n";
+    Opm::Parser parser;
+    const auto deck = parser.parseString(txt);
+    const Opm::Runspec rs(deck);
+    auto cfg = std::make_shared<Opm::EclHysteresisConfig>();
+    cfg->initFromState(rs);
+    return cfg;
+}
+
+static void corrKillough(vh::Rng& r, vh::Sink& sink, int cases)
+{
+    for (int c = 0; c < cases; ++c) {
+        const bool scaling = r.coin(1, 3);
+        Table tD = makeTable(r, r.coin()), tI = r.coin(1, 5) ? tD : makeTable(r, r.coin());
+        const std::string bits = scaling ? randomCfg(r) : std::string("00000000");
+        Points uD = unscaledOf(r, tD), uI = unscaledOf(r, tI);
+        Points sD = scaling ? perturb(r, uD, 1) : uD, sI = scaling ? perturb(r, uI, 1) : uI;
+        const int model = r.range(2, 3);
+        auto cfg = killoughCfg(model, r.coin(1, 4) ? 0.0 : 0.3 * r.unit());
+        Opm::EclEpsScalingPointsInfo<double> infoD{}, infoI{};
+        // oil-water system: Sncrd = Sowcr(drainage), Snmaxd = 1 - Swl - Sgl, Sncri = Sowcr(imbibition)
+        infoD.Swl = sD.v[6]; infoD.Sgl = r.coin(3, 4) ? 0.0 : 0.03 * r.unit(); infoD.Sowcr = 1.0 - sD.v[8];
+        infoI = infoD; infoI.Sowcr = r.coin(1, 8) ? infoD.Sowcr : infoD.Sowcr + 0.3 * r.unit();
+        Hyst::Params P;
+        P.setConfig(cfg);
+        P.setDrainageParams(epsParams(bits, tD, uD, sD), infoD, Opm::EclTwoPhaseSystemType::OilWater);
+        P.setImbibitionParams(epsParams(bits, tI, uI, sI), infoI, Opm::EclTwoPhaseSystemType::OilWater);
+        P.finalize();
+        const int style = r.range(0, 2);
+        std::vector<double> h = history(r, r.range(1, 20), style), probes;
+        for (int k = 0; k < 5; ++k) probes.push_back(r.unit());
+        const double start = P.krnSwMdc();
+        std::string a = hx(P.krnSwMdc()) + "/" + hx(P.Sncrt()) + "/" + hx(Hyst::twoPhaseSatKrn(P, 0.5));
+        for (double p : probes) a += "/" + hx(Hyst::twoPhaseSatKrn(P, p));
+        for (size_t k = 0; k < h.size(); ++k) {
+            P.update(h[k], h[k], h[k]);
+            a += " " + hx(P.krnSwMdc()) + "/" + hx(P.Sncrt()) + "/" + hx(Hyst::twoPhaseSatKrn(P, h[k]));
+            for (double p : probes) a += "/" + hx(Hyst::twoPhaseSatKrn(P, p));
+        }
+        const std::vector<double> stat = {P.Sncrd(), P.Sncri(), P.Snmaxd(), cfg->modParamTrapped()};
+        sink.emit("satfunc.killough " + bits + " " + tableStr(tD) + " " + ptsStr(uD) + " " + ptsStr(sD) + " " +
+                  tableStr(tI) + " " + ptsStr(uI) + " " + ptsStr(sI) + " " + hxl(stat) + " " + hx(start) + " " + hxl(h) + " " + hxl(probes), a);
+        sink.count("killough.model=" + std::to_string(model)); sink.count("killough.style=" + std::to_string(style));
+        sink.count(scaling ? "killough.scaled" : "killough.unscaled");
+    }
+}
+
 // ------------------------------------------------------------------------------------------
 // property mode
 
@@ -445,6 +501,7 @@ int main(int argc, char** argv)
         corrPL(r, sink, thorough ? 3000 : 500);
         corrEps(r, sink, thorough ? 12000 : 2000);
         corrHyst(r, sink, thorough ? 8000 : 1500);
+        corrKillough(r, sink, thorough ? 4000 : 600);
         sink.writeStats(out + "/stats.json");
         return 0;
     }
